@@ -144,6 +144,15 @@ func genRegions(r *rng.R, spec gen10.ClusterSpec, n int, healthy bool, scatterMo
 			rs.Peers = append(rs.Peers, gen10.PeerSpec{ID: next, Store: perm[k], Role: 1})
 			next++
 		}
+		if healthy && scatterMode && r.Pct(18) && len(rs.Peers) > 1 {
+			// the last heartbeat of a fully replicated region may still carry a pending or a down peer (right after a split / add-peer)
+			j := (rs.Leader + 1 + r.Intn(len(rs.Peers)-1)) % len(rs.Peers)
+			if r.Pct(60) {
+				rs.Pending = append(rs.Pending, j)
+			} else {
+				rs.Down = append(rs.Down, j)
+			}
+		}
 		if !healthy {
 			for j := range rs.Peers {
 				if j != rs.Leader && r.Pct(6) {
@@ -1015,6 +1024,9 @@ func main() {
 				run(genHistory(r, k%2 == 0), false)
 			}
 		}
+	}
+	if *replay == "" {
+		runReelections(R, *seed, 6)
 	}
 	if err := cf.Flush(); err != nil {
 		panic(err)
